@@ -23,6 +23,7 @@ hdr = ("### 8.4 Seeded defects (written by sub-agents that saw only a property's
        "`not-decided` seeds are still not reported (value-level questions outside static reach, recorded honestly).  "
        "Round 3 (ids 7-9, twelve properties, agents told which mechanisms and sites rounds 1-2 had used and asked for different ones): same columns.  "
        "Round 4 (ids 10-12, the eight properties that had no round 3: C02 C04 C08 C10 C12 C16 C17 C20; same instructions as round 3).  "
+       "Round 5 (ids 10-12 of the twelve round-3 properties; agents given the sites and a longer list of mechanisms of rounds 1-3 to avoid).  "
        "Six older seeds whose patches no longer applied after later fix: commits were re-written by hand for HEAD (`ported` in meta.json).\n\n"
        "| seed | round | where | what it does | at delivery | verdict of the checks now | first report |\n|---|---|---|---|---|---|---|\n")
 txt = hdr + "\n".join(rows) + "\n"
